@@ -263,6 +263,32 @@ def training_runs(ctx: Ctx, n_runs):
             ctx.violation("oracle", "ml.train stopped at the wrong epoch or returned the wrong model", case)
 
 
+def replay(ctx: Ctx, rep: dict):
+    """re-run the single stored history (or training configuration)"""
+    import ginjax.ml as ml
+
+    case = rep.get("case", {})
+    ctx.rule = "replay of one stored case"
+    if "losses" in case and "class" in case and case["class"] in ("TrainLoss", "ValLoss"):
+        hist = [Fraction(x) for x in case["losses"]]
+        delta = Fraction(case["min_delta"])
+        mon = "train" if case["class"] == "TrainLoss" else "val"
+        calls = [{"train": None, "val": None}]
+        for x in hist:
+            calls.append({"train": jrat(x), "val": jrat(100 - x)} if mon == "train" else {"train": jrat(100 - x), "val": jrat(x)})
+        mo = ctx.driver.call("c19.run", patience=case["patience"], delta=jrat(delta), monitor=mon, m0=None, start=0, calls=calls)
+        check_history(ctx, ml, case["class"], case["patience"], delta, case["rep"], hist, mo)
+    elif "parameter_script" in case:
+        sc = [Fraction(x) for x in case["parameter_script"]]
+        stopped, epoch, got_w = train_run(ctx, case["condition"], case["patience_or_epochs"], Fraction(case["min_delta"]), sc, case["validation"])
+        exp = case.get("expected")
+        ctx.case(("replay-train", case["condition"]), True)
+        if not stopped or (exp and (epoch != exp["stop_epoch"] or got_w != exp["returned_w"])):
+            ctx.violation("oracle", "ml.train did not stop at the specified epoch / did not return the best model", case)
+    else:
+        run(ctx)
+
+
 def run(ctx: Ctx):
     import ginjax.ml as ml
 
